@@ -159,6 +159,9 @@ def guarded_generators(prog: Program) -> Set[Tuple[str, str]]:
     return out
 
 
+LATER_RULES = ' Later rules: R19.2 demands imported names as the imports bind them (component found through the call graph); (R19.4) parameter kinds; (R19.5) injective renaming; (R19.6) delete only what was redirected; (R19.7) name-kind agreement and inclusive line containment.'
+
+
 def check(prog: Program, tier: str) -> Result:
     res = Result(
         "C19",
@@ -178,6 +181,7 @@ def check(prog: Program, tier: str) -> Result:
             "completeness of use-site discovery, validity of the produced identifier."),
         rule_text="instances = constructions of named nodes reaching the output, literal binders of replace templates, blacklist components, rename transactions; non-trivial = synthesised identifiers",
     )
+    res.explanation += LATER_RULES
     res.trusted_base = ["CPython ast", "sa/pathcond.py", "classification of identifier expressions (copy vs synthesised) in sa/props/c19.py"]
     gens = guarded_generators(prog)
     n_ctor = 0
